@@ -659,14 +659,15 @@ class BaseNodeVisitor(ast.NodeVisitor):
             ):
                 self.used_ignores.add(lineno - 1)
                 return
-            prev_line = lines[lineno - 2].strip()
-            if (
-                prev_line == ignore_comment
-                or error_code is not None
-                and prev_line == f"{ignore_comment}[{error_code.name}]"
-            ):
-                self.used_ignores.add(lineno - 2)
-                return
+            if lineno >= 2:
+                prev_line = lines[lineno - 2].strip()
+                if (
+                    prev_line == ignore_comment
+                    or error_code is not None
+                    and prev_line == f"{ignore_comment}[{error_code.name}]"
+                ):
+                    self.used_ignores.add(lineno - 2)
+                    return
 
         self.had_failure = True
 
